@@ -514,7 +514,25 @@ class ObjRun:
                 posts = [o_ for o_ in self.pool if isinstance(o_.obj, Posterior) and
                          not any(s_.get("special") == "problem" for s_ in o_.path)]
                 if not posts:
-                    return
+                    # reach a posterior first: everything but the main unknown is fixed on the joint in one call
+                    J = self.pool[0]
+                    names = [n_ for n_ in self.G["names"] if n_ != "x" and n_ in self.vals]
+                    if "x" not in self.G["names"] or not names:
+                        return
+                    step0 = {"names": names, "how": "kw"}
+                    try:
+                        with core.quiet():
+                            P = self.apply_cond(J.obj, step0)
+                    except core.SimCrash:
+                        raise
+                    except Exception:
+                        return
+                    if not isinstance(P, Posterior):
+                        return
+                    o = self.add(P, "derived", [step0], set(names), "J")
+                    if o is None:
+                        return
+                    posts = [o]
                 o = posts[op.get("pick", 0) % len(posts)]
                 obj = o.obj
             step = {"names": [], "how": "kw", "special": "problem"}
